@@ -74,9 +74,13 @@ func SwarmKnobs(rng *rand.Rand) core.Knobs {
 
 func allGens(rng *rand.Rand) []gen.Generator {
 	all := gen.All()
-	// swarm: each generator enabled with probability 0.7, at least two
+	// swarm: each generator enabled with probability 0.7, at least two. The adversarial clients that
+	// rewrite other clients' transactions are added by the profiles that want them.
 	var out []gen.Generator
 	for _, g := range all {
+		if g.Name() == "hostile-values" || g.Name() == "impersonator" || g.Name() == "garbage" {
+			continue
+		}
 		if rng.Intn(10) < 7 {
 			out = append(out, g)
 		}
